@@ -14,7 +14,7 @@ Driver entries for C17 (estimate extraction and its history buffer).
              | Q (move-assign the current object to the other one) | T (switch to the other object)
              | X <N> particles(cm, (lin+circ)×N) weights(N)
              | Y <N> <K> particles weights(N) prev_weights(K) likelihoods(N) transition(cm, N×K)
-     -> per call, separated by `|`:  `<tag> <flag> <window> <method> [est…] [t:… branch tags] [v:… map values]`
+     -> per call, separated by `|`:  `<tag> <flag> <window> <method> [est…] [t:… branch tags] [v:… map values] s:ok|s:BAD`
         (window and method of the current object after the call)
 
   hbs <dim> <nops> {op}       the same operation sequences on the SPECIFICATION `HistSpec` (append-only log + counter;
@@ -209,14 +209,22 @@ def mapVals (c : Call Float) (s : EE Float) : List String :=
     if s.method.stat == .map then (mapValues dblMin a.pw a.lik a.tp).map fun v => "v:" ++ floatStr v else []
   | _ => []
 
+/-- does the history buffer of an object show what its specification state shows? (bit patterns compared) -/
+def sameHist (h : HistBuf (List Float)) (s : HistSpec (List Float)) : Bool :=
+  h.window == s.window && (h.items.map fun c => c.map floatStr) == (s.view.map fun c => c.map floatStr)
+
 def ee : R String := do
   let lin ← nat; let circ ← nat; let n ← nat
   let calls ← readCalls lin circ n
   done
   let mut p : Pool Float := Pool.init lin circ
+  -- the specification pair (append-only logs + counters), driven by the translated operations `poolBufOp`
+  -- (theorem `ee_pool_history_refines_spec`): token `s:ok` when both objects show what it shows
+  let mut sp : HistSpec.Pair (List Float) := ⟨HistSpec.init, HistSpec.init⟩
   let mut outs : Array String := #[]
   for (t, pc) in calls do
     let s := p.get p.cur
+    sp := (poolBufOp dblMin p pc).foldl HistSpec.step2 sp
     let (tg, mv) := match pc with
       | .call c => (tags s c, mapVals c s)
       | _ => (["t:hand-over:" ++ t], [])
@@ -226,7 +234,9 @@ def ee : R String := do
     let est := match r.2.est with
       | some e => e.map floatStr
       | none => []
-    outs := outs.push (join ([t, if r.2.flag then "1" else "0", toString s'.hist.window, toString (natOfMethod s'.method)] ++ est ++ tg ++ mv))
+    let specOk := sameHist (p.get false).hist (sp.get false) && sameHist (p.get true).hist (sp.get true)
+    outs := outs.push (join ([t, if r.2.flag then "1" else "0", toString s'.hist.window, toString (natOfMethod s'.method)] ++ est ++ tg ++ mv
+      ++ [if specOk then "s:ok" else "s:BAD"]))
   pure (" | ".intercalate outs.toList)
 
 def eew : R String := do
